@@ -91,6 +91,10 @@ type alGate struct {
 	cwait    atomic.Int64 // closers waiting for the loop to end
 	cret     atomic.Int64
 	loopGoid atomic.Int64
+	// goroutines spawned by AddRemoteCandidate (its add runs as a task of its own) can be held back before they submit
+	asyncHold atomic.Bool
+	asyncGate chan struct{}
+	asyncN    atomic.Int64
 }
 
 func (g *alGate) yield(site string) {
@@ -101,6 +105,11 @@ func (g *alGate) yield(site string) {
 		<-g.gate
 	case "loop.exit":
 		g.exited.Store(true)
+	case "run.errcheck":
+		if g.asyncHold.Load() && stackHas("AddRemoteCandidate.func") {
+			g.asyncN.Add(1)
+			<-g.asyncGate
+		}
 	case "run.select":
 		g.sel.Add(1)
 	case "run.sent", "run.ctxdone", "run.closed":
@@ -271,7 +280,7 @@ func TestApiLin(t *testing.T) {
 		st["scenarios"]++
 		synctest.Test(t, func(t *testing.T) {
 			t.Helper()
-			g := &alGate{gate: make(chan struct{})}
+			g := &alGate{gate: make(chan struct{}), asyncGate: make(chan struct{})}
 			a, err := ice.NewAgentWithOptions(
 				ice.WithMulticastDNSMode(ice.MulticastDNSModeDisabled),
 				ice.WithCandidateTypes([]ice.CandidateType{ice.CandidateTypeHost}),
@@ -327,6 +336,14 @@ func TestApiLin(t *testing.T) {
 					if g.serve() {
 						st["loop_turns"]++
 					}
+				case "asynchold": // the add tasks of later AddRemoteCandidate calls are held back until "asyncfree"
+					g.asyncHold.Store(true)
+				case "asyncfree":
+					g.asyncHold.Store(false)
+					for n := g.asyncN.Swap(0); n > 0; n-- {
+						g.asyncGate <- struct{}{}
+						st["async_released"]++
+					}
 				case "call":
 					st["calls"]++
 					lmu.Lock()
@@ -346,6 +363,10 @@ func TestApiLin(t *testing.T) {
 			}
 			// epilogue: free mode until every call has returned, then Close
 			hold = false
+			g.asyncHold.Store(false)
+			for n := g.asyncN.Swap(0); n > 0; n-- {
+				g.asyncGate <- struct{}{}
+			}
 			for n := 0; n < 400; n++ {
 				settle()
 				lmu.Lock()
